@@ -38,3 +38,11 @@ Lemma hint_witness :
   let r := snd (decompress spec_decode dctx_init (ztake 16 hw_frame) 100 (mkO false false false)) in
   r_consumed r = 16 /\ r_ret r = 14.
 Proof. vm_compute. repeat split; reflexivity. Qed.
+
+(* the formula of lz4frame.c before the repair (b4823ff), (tmpInTarget - tmpInSize) + (blockChecksumFlag ? BFSize : 0) + BHSize,
+   evaluated in the state the witness reaches: 18, although 14 bytes of the frame are left *)
+Lemma old_storeCBlock_hint_exceeds_frame :
+  let s := fst (decompress spec_decode dctx_init (ztake 16 hw_frame) 100 (mkO false false false)) in
+  d_stage s = StoreCBlock /\
+  (d_tmpInTarget s - d_tmpInSize s) + bcsize s + FD_BHSize = 18 /\ zlen hw_frame - 16 = 14.
+Proof. vm_compute. repeat split; reflexivity. Qed.
